@@ -49,7 +49,7 @@ JointMotion(j) ==       \* [dr, dA, dv, dw] of the child frame relative to the j
       [] j.type \in {"revolute", "continuous"} -> [dr |-> Z3, dA |-> RotAxis(j.axis, j.q), dv |-> Z3, dw |-> VScale(j.qd, j.axis)]
       [] j.type = "prismatic" -> [dr |-> VScale(j.q, j.axis), dA |-> I3, dv |-> VScale(j.qd, j.axis), dw |-> Z3]
       [] j.type = "planar" -> [dr |-> <<j.q, j.q2, 0>>, dA |-> I3, dv |-> <<j.qd, j.qd2, 0>>, dw |-> Z3]
-      [] j.type = "floating" -> [dr |-> j.fr, dA |-> Rpy(j.frpy), dv |-> j.fv, dw |-> Z3]
+      [] j.type = "floating" -> [dr |-> j.fr, dA |-> Rpy(j.frpy), dv |-> j.fv, dw |-> j.fw]
 ChildFrame(p, j) ==
     LET Aj == MatMul(p.A, Rpy(j.rpy))                          \* joint frame
         rj == VAdd(p.r, MatVec(p.A, j.xyz))
@@ -91,9 +91,12 @@ Inert1 == [xyz |-> <<1, 0, 2>>, rpy |-> <<1, 0, 3>>]
 Inert2 == [xyz |-> <<0, 0 - 1, 0>>, rpy |-> <<0, 2, 1>>]
 AxesAll == {<<1, 0, 0>>, <<0, 1, 0>>, <<0, 0, 1>>, <<0 - 1, 0, 0>>, <<0, 0 - 1, 0>>, <<0, 0, 0 - 1>>}
 RpyFew == {<<0, 0, 0>>, <<1, 0, 0>>, <<0, 1, 0>>, <<0, 0, 1>>, <<1, 2, 3>>, <<3, 1, 0>>, <<2, 0, 1>>, <<0, 3, 2>>}
+\* A floating joint takes a displacement fr, an orientation frpy, a linear rate fv and a relative angular velocity fw, all in the joint frame.
+\* URDF does not say whether fv is the rate of fr or the velocity of the child-fixed point at the joint origin; the two readings differ by fw x fr,
+\* so the cases with a relative spin (rate 2) have no displacement.
 J(type, axis, xyz, rpy, q, qd, parent, inert) ==
     [type |-> type, axis |-> axis, xyz |-> xyz, rpy |-> rpy, q |-> q, qd |-> qd, q2 |-> 1 - q, qd2 |-> 2, parent |-> parent, inert |-> inert,
-     fr |-> <<q, 1, 0 - 2>>, frpy |-> <<q, 1, 2>>, fv |-> <<qd, 0, 1>>]
+     fr |-> IF qd = 2 THEN <<0, 0, 0>> ELSE <<q, 1, 0 - 2>>, frpy |-> <<q, 1, 2>>, fv |-> <<qd, 0, 1>>, fw |-> IF qd = 2 THEN <<1, 2, 0 - 1>> ELSE <<0, 0, 0>>]
 Roots == {[r |-> Z3, rpy |-> <<0, 0, 0>>, v |-> Z3, wR |-> Z3, floating |-> FALSE, inert |-> Inert0],
           [r |-> <<1, 0 - 2, 3>>, rpy |-> <<1, 0, 2>>, v |-> Z3, wR |-> Z3, floating |-> FALSE, inert |-> Inert1],
           [r |-> <<0, 1, 1>>, rpy |-> <<0, 3, 1>>, v |-> <<1, 0, 0 - 1>>, wR |-> <<0, 2, 1>>, floating |-> TRUE, inert |-> Inert2]}
@@ -106,7 +109,7 @@ Menu == {J("revolute", <<0, 0, 1>>, <<1, 0, 0>>, <<0, 0, 0>>, 1, 1, 0, Inert1),
          J("continuous", <<0, 0 - 1, 0>>, <<0, 2, 1>>, <<1, 0, 3>>, 2, 0 - 1, 0, Inert2),
          J("prismatic", <<1, 0, 0>>, <<0, 0, 1>>, <<0, 1, 0>>, 2, 1, 0, Inert1),
          J("fixed", <<1, 0, 0>>, <<1, 1, 0>>, <<2, 0, 1>>, 0, 0, 0, Inert2),
-         J("floating", <<1, 0, 0>>, <<0, 1, 0>>, <<0, 0, 2>>, 1, 1, 0, Inert1),
+         J("floating", <<1, 0, 0>>, <<0, 1, 0>>, <<0, 0, 2>>, 1, 2, 0, Inert1),
          J("planar", <<0, 0, 1>>, <<0, 0, 1>>, <<1, 3, 0>>, 2, 1, 0, Inert0),
          J("revolute", <<1, 0, 0>>, <<0 - 1, 0, 2>>, <<3, 0, 1>>, 3, 2, 0, Inert0)}
 WithParent(j, p) == [j EXCEPT !.parent = p]
